@@ -24,6 +24,7 @@ ANCHORS = [
     (_TLS, "AsyncTLSStreamTransport.recv_into"),
     (_TLS, "AsyncTLSStreamTransport.__post_init__"),
     (_TLS, "_IncomingDataReader.readinto"),
+    (_TLS, "_IncomingDataReader"),            # whole class: where its scratch buffer comes from matters (seeded C08-r3-3)
 ]
 RULE = ("real AsyncTLSStreamTransport (client and server role, TLS 1.2 and 1.3, real OpenSSL) over an in-memory "
         "transport; peer = independent stdlib ssl.SSLObject; after the handshake a writer task (send_all / "
@@ -522,6 +523,24 @@ def _sc_cancel_read_pending_bio(params):
                     ("join", "w1"), ("join", "w2"), ("join", "r1"), ("drain", 30)]
 
 
+def _sc_pha(params):
+    """TLS 1.3 post-handshake client authentication: ssl_object.read() itself WRITES a protocol answer (Certificate /
+    CertificateVerify / Finished, about 1.2 KiB) into the outgoing BIO.  params = [with_data, k]:
+    with_data = 0: the CertificateRequest arrives alone: read() -> WANT_READ with the answer pending;
+    with_data = 1: it arrives in the same flight as an application record: read() -> plaintext AND the answer pending.
+    The peer only sends its next message once it has seen the certificate; the transport side only ever calls recv()
+    (the first recv() is cancelled at its k-th resumption -- k beyond its last one: never -- then recv() is called again
+    until everything the peer wrote has been returned)."""
+    with_data, k = params
+    if with_data:
+        script = [("peer_write_when_cert", 20), ("peer_pha", 26), ("recv_cancel", "r1", 100, k), ("steps", 12), ("join", "r1"),
+                  ("drain", 46)]
+    else:
+        script = [("peer_write_when_cert", 20), ("recv_cancel", "r1", 100, k), ("steps", 4), ("peer_pha", 0), ("steps", 12),
+                  ("join", "r1"), ("drain", 20)]
+    return dict(pha=1, recv_yields=1), script
+
+
 def _sc_two_writers(params):
     """two tasks call send_all concurrently over a wrapped transport whose send_all is NOT atomic (pieces + yields).
     params = [piece, yields, n1, n2, size...]"""
@@ -544,11 +563,19 @@ SCENARIOS["cancel-sweep"] = _sc_cancel_sweep
 SCENARIOS["two-writers"] = _sc_two_writers
 SCENARIOS["big-write"] = _sc_big_write
 SCENARIOS["cancel-read-pending-bio"] = _sc_cancel_read_pending_bio
+SCENARIOS["pha"] = _sc_pha
+# two tasks in the WANT_READ path; the second one has ciphertext to flush and queues on the send lock behind a send_all
+# parked by back-pressure; meanwhile the first one feeds the SSL object with TWO records and returns the first: when the
+# second task finally gets to the recv lock its record is already decrypted-able: it must retry the SSL call, not read
+SCENARIOS["feed-during-flush"] = [
+    ("recv", "r1", 5), ("steps", 4), ("gate", 0), ("send", "w1", [40]), ("steps", 6), ("send", "w2", [50]), ("steps", 6),
+    ("recv", "r2", 5), ("steps", 6), ("peer_write", 5), ("peer_write", 5), ("steps", 8), ("join", "r1"), ("gate", 1),
+    ("join", "w1"), ("join", "w2"), ("join", "r2")]
 
 # codes are part of recorded corpus inputs: never renumber, only append
 SCENARIO_CODES = {"echo": 0, "echo-2": 1, "abandoned-send": 2, "backpressure-read": 3, "cancel-after-read": 4,
                   "second-send-behind-parked-send": 5, "cancel-sweep": 6, "two-writers": 7, "big-write": 8,
-                  "cancel-read-pending-bio": 9}
+                  "cancel-read-pending-bio": 9, "pha": 10, "feed-during-flush": 11}
 assert set(SCENARIO_CODES) == set(SCENARIOS)
 SCENARIO_NAMES = {v: k for k, v in SCENARIO_CODES.items()}
 # scenarios that fail on a tree without the corresponding fix: reported through the corpus / known_findings only
@@ -570,7 +597,12 @@ def run_scenario(cfg):
         opts, script = script(list(cfg.get("params", [])))
     rec = K.Recorder()
     ver, client = cfg["ver"], bool(cfg["client"])
-    if client:
+    if opts.get("pha"):
+        assert ver == 13 and client, "post-handshake authentication: the transport is the TLS 1.3 client"
+        srv, cli = K.pha_ctxs()
+        peer = K.Peer(srv, True, [])
+        ctx = K.RecContext(cli, rec)
+    elif client:
         peer = K.Peer(K.server_ctx(ver), True, [])
         ctx = K.RecContext(K.client_ctx(ver), rec)
     else:
@@ -600,6 +632,7 @@ def run_scenario(cfg):
         tr.send_pieces = opts.get("send_pieces", 0)
         drained = bytearray()
         info["drained"] = drained
+        watchers = []
 
         async def do_recv(tag, n):
             op = rec.begin_op(K.M_READ, n, [])
@@ -675,6 +708,30 @@ def run_scenario(cfg):
                 peer.obj.write(d)
                 tr.stream += peer.out.read()
                 tr.data_event.set()
+            elif what == "peer_pha":
+                # the peer (server) asks for the client certificate; with cmd[1] > 0 the request travels with an application record
+                peer.obj.verify_client_post_handshake()
+                if cmd[1]:
+                    d = _plain(cmd[1], b"P%d" % len(peer_plain))
+                    peer_plain.extend(d)
+                    peer.obj.write(d)
+                else:
+                    peer.obj.do_handshake()
+                tr.stream += peer.out.read()
+                tr.data_event.set()
+            elif what == "peer_write_when_cert":
+                # the peer goes on (writes cmd[1] bytes) as soon as it has seen the certificate, whenever that is
+                async def _watch(n=cmd[1]):
+                    for _ in range(5000):
+                        if peer.obj.getpeercert():
+                            d = _plain(n, b"P%d" % len(peer_plain))
+                            peer_plain.extend(d)
+                            peer.obj.write(d)
+                            tr.stream += peer.out.read()
+                            tr.data_event.set()
+                            return
+                        await asyncio.sleep(0)
+                watchers.append(asyncio.ensure_future(_watch()))
             elif what == "cancel":
                 tasks[cmd[1]].cancel()
             elif what == "join":
@@ -692,10 +749,11 @@ def run_scenario(cfg):
         info["locks_end"] = [int(bool(getattr(t, "_AsyncTLSStreamTransport__transport_" + w + "_lock").locked()))
                              for w in ("send", "recv")]
         info["peer_got"] = bytes(peer.plain_in)
+        info["peer_cert"] = bool(opts.get("pha")) and bool(peer.obj.getpeercert())
         info["nsteps"] = {k_: v.nsteps for k_, v in tasks.items() if isinstance(v, K.CountingTask)}
-        for x in tasks.values():
+        for x in list(tasks.values()) + watchers:
             x.cancel()
-        await asyncio.gather(*tasks.values(), return_exceptions=True)
+        await asyncio.gather(*tasks.values(), *watchers, return_exceptions=True)
         tr.peer_silent_eof = True
         tr.writable.set()
         try:
@@ -731,6 +789,23 @@ def run_scenario(cfg):
                             f"{len(peer_plain)} bytes the peer wrote, with a hole")
         elif info["stuck"]:
             problems.append(f"stuck: {info['stuck']} did not complete")
+    elif name == "pha":
+        got = b"".join(info["recvd"][k_] for k_ in info["order"] if k_ in info["recvd"])
+        if not info.get("peer_cert"):
+            problems.append("the answer to a post-handshake message (TLS 1.3 client authentication) that ssl_object.read() wrote into "
+                            f"the outgoing BIO was never sent although recv() was called again: {info.get('wpending')} bytes are left "
+                            "in the BIO, the peer waits for them and the transport waits for the peer")
+        elif got != bytes(peer_plain):
+            problems.append(f"post-handshake authentication: the completed recv() calls returned {len(got)} of the {len(peer_plain)} "
+                            "bytes the peer wrote" + (f" (stuck: {info['stuck']})" if info["stuck"] else ""))
+        elif info.get("wpending"):
+            problems.append(f"post-handshake authentication: {info.get('wpending')} bytes left in the outgoing BIO at the end")
+    elif name == "feed-during-flush":
+        if info["stuck"]:
+            problems.append(f"stuck: {info['stuck']}: a recv() went to read the transport although its record had been fed to the SSL "
+                            "object (by another recv()) while it was flushing / queueing on the send lock: the feed was not noticed")
+        elif [bytes(info["recvd"].get(k_, b"")) for k_ in ("r1", "r2")] != [bytes(peer_plain[:5]), bytes(peer_plain[5:10])]:
+            problems.append("feed-during-flush: the two recv() calls did not return the two records in order")
     elif name == "cancel-sweep":
         got = b"".join(info["recvd"][k_] for k_ in info["order"] if k_ in info["recvd"])
         if got != bytes(peer_plain):
@@ -775,6 +850,149 @@ def run_scenario(cfg):
         problems.append("plaintext marker found in the bytes handed to the wrapped transport (sent unencrypted)")
     info.update(problems=problems, events=events)
     return dict(labels=labels, out=[obs, results, info.get("wpending", 0)] + info.get("locks_end", [0, 0]), info=info)
+
+
+_MULTI = {}
+
+
+def run_multi(cfg):
+    """n (2 or 3) TLS transports multiplexed on ONE event loop, each with its own peer and its own in-memory transport.
+    The wrapped transports deliver like a BufferedProtocol (`deliver_early`): ciphertext is written into the buffer the
+    transport passed to recv_into() when it arrives, the waiting task is woken up some loop iterations later -- and the
+    ciphertext of ALL connections arrives in the same loop iteration, round after round, while every connection is also
+    sending.  Every connection is checked on its own (trace replayed through the model; plaintext equality both ways; the
+    peer's TLS layer accepted the stream).  One real run gives n cases (cfg["conn"] selects the connection)."""
+    from easynetwork.lowlevel.api_async.transports.tls import AsyncTLSStreamTransport
+
+    n, ver, client, early, seed = cfg["n"], cfg["ver"], bool(cfg["client"]), cfg["early"], cfg["seed"]
+    key = (n, ver, client, early, seed, runner.REPO)
+    if key not in _MULTI:
+        rng = __import__("random").Random(seed)
+        rounds = 3
+        plan = [dict(peer=[rng.choice([1, 7, 100, 1000, 3000]) for _ in range(rounds)],
+                     mine=[rng.choice([1, 7, 100, 1000]) for _ in range(2)], recv_size=rng.choice([64, 4096, 65536])) for _ in range(n)]
+        conns = []
+        state = dict(deadlock=False)
+
+        async def main():
+            for i in range(n):
+                rec = K.Recorder()
+                rec.name_task(0)
+                if client:
+                    peer = K.Peer(K.server_ctx(ver), True, [])
+                    ctx = K.RecContext(K.client_ctx(ver), rec)
+                else:
+                    peer = K.Peer(K.client_ctx(ver), False, [])
+                    ctx = K.RecContext(K.server_ctx(ver), rec)
+                tr = K.MemTransport(rec, peer, K.RecBackend(K.new_backend(), rec))
+                tr.peer_silent_eof = False
+                if not client:
+                    tr.stream += peer.pump()
+                c = dict(rec=rec, peer=peer, tr=tr, results={}, got=bytearray(), sent=bytearray(), peer_plain=bytearray(), stuck=[])
+                op = rec.begin_op(K.M_HANDSHAKE, 0, [])
+                with K.patched_ssl_module(rec):
+                    c["t"] = await AsyncTLSStreamTransport.wrap(tr, ctx, server_side=not client,
+                                                                 server_hostname="localhost" if client else None)
+                c["results"][op] = [0, 0]
+                tr.deliver_early = early
+                conns.append(c)
+
+            async def reader(i):
+                c, want = conns[i], sum(plan[i]["peer"])
+                while len(c["got"]) < want:
+                    op = c["rec"].begin_op(K.M_READ, plan[i]["recv_size"], [])
+                    try:
+                        d = await c["t"].recv(plan[i]["recv_size"])
+                    except BaseException as exc:
+                        c["results"][op] = [1, _exc_code(exc)]
+                        raise
+                    c["results"][op] = [0, len(d)]
+                    if not d:
+                        break
+                    c["got"] += d
+
+            async def writer(i):
+                c = conns[i]
+                for j, size in enumerate(plan[i]["mine"]):
+                    d = _plain(size, b"T%d.%d" % (i, j))
+                    op = c["rec"].begin_op(K.M_WRITE, 0, [size])
+                    try:
+                        await c["t"].send_all(d)
+                    except BaseException as exc:
+                        c["results"][op] = [1, _exc_code(exc)]
+                        raise
+                    c["results"][op] = [0, 0]
+                    c["sent"] += d
+                    await asyncio.sleep(0)
+
+            tasks = [asyncio.ensure_future(f(i)) for i in range(n) for f in (reader, writer)]
+            await asyncio.sleep(0)
+            for r in range(rounds):
+                # the ciphertext of ALL connections becomes readable in the same loop iteration
+                for i, c in enumerate(conns):
+                    d = _plain(plan[i]["peer"][r], b"P%d.%d" % (i, r))
+                    c["peer_plain"] += d
+                    c["peer"].obj.write(d)
+                    c["tr"].stream += c["peer"].out.read()
+                for c in conns:
+                    c["tr"].data_event.set()
+                for _ in range(6 + 2 * early):
+                    await asyncio.sleep(0)
+            for _ in range(400):
+                if all(t_.done() for t_ in tasks):
+                    break
+                await asyncio.sleep(0)
+            for i, c in enumerate(conns):
+                c["events_end"] = len(c["rec"].events)
+                c["wpending"] = c["t"]._write_bio.pending
+                c["results_end"] = {k_: list(v) for k_, v in c["results"].items()}
+                c["locks_end"] = [int(bool(getattr(c["t"], "_AsyncTLSStreamTransport__transport_" + w + "_lock").locked()))
+                                  for w in ("send", "recv")]
+                c["stuck"] = [("reader", "writer")[j] for j in (0, 1) if not tasks[2 * i + j].done()]
+                c["errors"] = [repr(tasks[2 * i + j].exception()) for j in (0, 1)
+                               if tasks[2 * i + j].done() and not tasks[2 * i + j].cancelled() and tasks[2 * i + j].exception() is not None]
+                c["peer_got"] = bytes(c["peer"].plain_in)
+            for t_ in tasks:
+                t_.cancel()
+            await asyncio.gather(*tasks, return_exceptions=True)
+            for c in conns:
+                c["tr"].peer_silent_eof = True
+                try:
+                    await c["t"].aclose()
+                except BaseException:
+                    pass
+
+        try:
+            detloop.run(main())
+        except detloop.DeadlockError:
+            state["deadlock"] = True
+        res = []
+        for i, c in enumerate(conns):
+            events = c["rec"].events[: c.get("events_end", len(c["rec"].events))]
+            labels, obs, results = _events_to_trace(events, c.get("results_end", c["results"]))
+            problems = []
+            if state["deadlock"]:
+                problems.append("deadlock: the event loop would block forever")
+            if c.get("errors"):
+                problems.append(f"{n} TLS connections on one event loop: connection {i} failed with {c['errors'][0]} "
+                                "(ciphertext of all connections arrives in the same loop iteration)")
+            elif bytes(c["got"]) != bytes(c["peer_plain"]):
+                problems.append(f"{n} TLS connections on one event loop: connection {i} did not read the plaintext its own peer wrote "
+                                f"({len(c['got'])} of {len(c['peer_plain'])} bytes, stuck: {c.get('stuck')})")
+            elif c["peer"].read_error is not None:
+                problems.append(f"{n} TLS connections on one event loop: the peer of connection {i} rejected the stream")
+            elif c.get("peer_got") != bytes(c["sent"]):
+                problems.append(f"{n} TLS connections on one event loop: the peer of connection {i} did not read the plaintext written to it")
+            elif c.get("stuck"):
+                problems.append(f"{n} TLS connections on one event loop: connection {i}: {c['stuck']} did not complete")
+            if MARKER in bytes(c["rec"].cipher_out):
+                problems.append("plaintext marker found in the bytes handed to the wrapped transport (sent unencrypted)")
+            out = [obs, results, c.get("wpending", 0)] + c.get("locks_end", [0, 0])
+            res.append(dict(labels=labels, out=out, info=dict(problems=problems, events=events)))
+        if len(res) < n:        # a handshake did not complete
+            res += [dict(labels=[], out=[[], [], 0, 0, 0], info=dict(problems=["deadlock: a handshake did not complete"], events=[]))] * (n - len(res))
+        _MULTI[key] = res
+    return _MULTI[key][cfg["conn"]]
 
 
 def current_state():
@@ -828,6 +1046,8 @@ def _sx_cfg(f):
                     seed=f[6], recv_size=f[7], into=f[8])
     if isinstance(f[0], bytes) and f[0] == b"scenario":
         return dict(kind="scenario", flag=f[1], name=SCENARIO_NAMES[f[2]], ver=f[3], client=f[4], params=list(f[5]) if len(f) > 5 else [])
+    if isinstance(f[0], bytes) and f[0] == b"multi":
+        return dict(kind="multi", flag=f[1], n=f[2], ver=f[3], client=f[4], conn=f[5], early=f[6], seed=f[7])
     if isinstance(f[0], bytes):
         return dict(kind="two-readers", flag=f[1], ver=f[2], client=f[3])
     return dict(ver=f[0], client=f[1], writes=[w[0] if len(w) == 1 else list(w) for w in f[2]], peer_writes=list(f[3]),
@@ -856,6 +1076,15 @@ def _build(cfg):
         out = sx.norm(out)
         _MEMO[sx.to_text(inp)] = out
         return inp, out, r["info"]
+    if cfg.get("kind") == "multi":
+        r = run_multi(cfg)
+        inp = sx.norm([r["labels"], [b"multi", cfg["flag"], cfg["n"], cfg["ver"], int(cfg["client"]), cfg["conn"], cfg["early"], cfg["seed"]]])
+        out = list(r["out"])
+        if r["info"]["problems"]:
+            out.append([b"assertion failed on the real run: " + r["info"]["problems"][0].encode()])
+        out = sx.norm(out)
+        _MEMO[sx.to_text(inp)] = out
+        return inp, out, r["info"]
     if cfg.get("kind") == "two-readers":
         r = run_two_readers(cfg)
         inp = sx.norm([r["labels"], [b"two-readers", cfg["flag"], cfg["ver"], int(cfg["client"])]])
@@ -874,7 +1103,7 @@ def run_impl(inp):
     if key in _MEMO:
         return _MEMO[key]
     cfg = _sx_cfg(inp[-1])
-    if cfg.get("kind") in ("two-readers", "scenario") and cfg["flag"] != current_state():
+    if cfg.get("kind") in ("two-readers", "scenario", "multi") and cfg["flag"] != current_state():
         return [777]            # recorded for the other state of the lost-wakeup fix: not applicable to this tree
     inp2, out, _info = _build(cfg)
     if cfg.get("kind") == "sync-duplex":
@@ -916,7 +1145,7 @@ def cases(tier, rng, escalate):
     cap = 12000 if thorough else 2500          # labels per case (longer traces are left to the other families)
     def weight(c):
         return len(c["input"][0]) if isinstance(c["input"][0], list) else 50
-    allc = [c for c in _gen(thorough, rng) if weight(c) <= cap] + list(_gen_sync(thorough, rng)) + list(_gen_scenarios(thorough, rng)) + list(_gen_param_scenarios(thorough, rng))
+    allc = [c for c in _gen(thorough, rng) if weight(c) <= cap] + list(_gen_sync(thorough, rng)) + list(_gen_scenarios(thorough, rng)) + list(_gen_param_scenarios(thorough, rng)) + list(_gen_multi(thorough, rng))
     allc.sort(key=lambda c: -weight(c))
     nb = max(1, -(-len(allc) // 400))
     buckets = [allc[b::nb] for b in range(nb)]
@@ -964,6 +1193,14 @@ def _gen_param_scenarios(thorough, rng):
             n1 = len(sizes) // 2
             c, _i = one("two-writers", ver, client, [piece, yields, n1, len(sizes) - n1] + sizes, ["non-atomic-send_all"])
             yield c
+        if ver == 13 and client:
+            # ssl_object.read() that itself produces TLS output; the first recv() cancelled at every suspension point
+            for with_data in (0, 1):
+                _c, info = one("pha", ver, client, [with_data, 10 ** 6], ["post-handshake-auth", "read-produces-output", "no-cancel"])
+                yield _c
+                for k in range(1, max(info["nsteps"].values(), default=1) + 1):
+                    c, _i = one("pha", ver, client, [with_data, k], ["post-handshake-auth", "cancel-at-suspension-point"])
+                    yield c
         if scenario_fixed("cancel-read-pending-bio"):      # (otherwise: known finding, witnesses in corpus/C08)
             _c, info = one("cancel-read-pending-bio", ver, client, [0], ["no-cancel"])
             yield _c
@@ -973,6 +1210,21 @@ def _gen_param_scenarios(thorough, rng):
         for size, echo in ([(270000, 0), (270000, 1)] if not thorough else [(262143, 0), (262145, 0), (270000, 0), (270000, 1), (600000, 0), (600000, 1)]):
             c, _i = one("big-write", ver, client, [size, echo], ["above-256KiB", "request-reply" if echo else "pure-send"])
             yield c
+
+
+def _gen_multi(thorough, rng):
+    """2 and 3 TLS connections multiplexed on one loop (see run_multi)."""
+    state = current_state()
+    seed = rng.randrange(1 << 30)
+    k = 0
+    for ver, client in ([(13, 1), (12, 0)] if not thorough else [(13, 1), (13, 0), (12, 1), (12, 0)]):
+        for n in (2, 3):
+            for early in ((1, 2) if not thorough else (0, 1, 2, 3)):
+                k += 1
+                for conn in range(n):
+                    inp, _out, info = _build(dict(kind="multi", flag=state, n=n, ver=ver, client=client, conn=conn, early=early, seed=seed + k))
+                    yield dict(input=inp, nontrivial=True, tags=["multi-connection", f"{n}-connections-one-loop", f"tls1.{ver - 10}",
+                                                                 "client" if client else "server", f"deliver-early{early}"])
 
 
 def _gen_scenarios(thorough, rng):
@@ -1062,9 +1314,10 @@ _KNOWN_ASKED = set()
 
 def oracle(inp):
     cfg = _sx_cfg(inp[-1])
-    if cfg.get("kind") in ("scenario", "two-readers") and cfg.get("flag") != current_state():
+    if cfg.get("kind") in ("scenario", "two-readers", "multi") and cfg.get("flag") != current_state():
         return None              # witness recorded for another state of the fixes: says nothing about this tree
     r = (run_scenario(cfg) if cfg.get("kind") == "scenario" else
+         run_multi(cfg) if cfg.get("kind") == "multi" else
          run_two_readers(cfg) if cfg.get("kind") == "two-readers" else
          run_sync_duplex(cfg) if cfg.get("kind") == "sync-duplex" else run_duplex(cfg))
     problems = r["info"]["problems"]
@@ -1092,7 +1345,7 @@ def signature(inp, failure):
 
 def shrink(inp):
     cfg = _sx_cfg(inp[-1])
-    if cfg.get("kind") in ("two-readers", "sync-duplex", "scenario"):
+    if cfg.get("kind") in ("two-readers", "sync-duplex", "scenario", "multi"):
         return
     if len(cfg["writes"]) > 1:
         for i in range(len(cfg["writes"])):
